@@ -68,6 +68,8 @@ pub fn gen_cfg(rng: &mut Rng, deep: bool, allow_codecs: bool) -> FileCfg {
         2 => rng.below(23) as u32,
         _ => if codec == CompressionType::Zstd { rng.below(20) as u32 } else { rng.next() as u32 },
     };
+    // zstd levels 20..22 allocate ~1 GB of window per block: legitimate but far too slow here
+    let level = if codec == CompressionType::Zstd { level.min(9) } else { level };
     let (block_size, unclamped) = if deep || rng.chance(1, 3) {
         (rng.range(16, 256) as usize, true)
     } else {
